@@ -14,34 +14,8 @@ sys.path.insert(0, os.path.join(vf.VERIF, "lib"))
 import c08gen as G  # noqa: E402
 
 META = {
-    "text": "Theorems (Coq, no axioms) over a literal model of libStatus/Status (after the committed repairs F9, F21, F22, F24), of "
-            "the node's add-block/reorg call sequence and of the block-producer election (bp.Snapshots/Cluster/GetRankers), for "
-            "all producer counts and all delivery histories (arbitrary blocks and Confirms, forks) with restarts at every point, plus "
-            "blocks that fail at execution or are refused by IsBlockValid (as children of the best block or at any position of a "
-            "branch being rolled forward) and crashes inside a reorganisation with recovery from the marker (after F40): "
-            "the LIB height never decreases; a block numbered <= LIB and a reorganisation forking below the LIB change nothing; "
-            "every main-chain block at or below a LIB ever reported stays forever; the LIB, all proposals and all confirms "
-            "elements are on the main chain; a node's successive LIBs lie on one branch; a block becomes a proposed LIB only "
-            "after 2n/3+1 main-chain blocks whose windows contain it (distinct producers when windows are honest); at least "
-            "n'-(n'-1)/3 proposals are >= a computed LIB; two quorums of 2n/3+1 producers share a correct one when f < n/3; "
-            "restart restores the LIB exactly and is idempotent; ForceResetHeight leaves nothing above the reset height; "
-            "confirmsRequired is 2n/3+1 of the current producer count; retired producers lose their proposal entry at the "
-            "election boundary; for a constant BPCOUNT the producer set is a function of the main chain (also after restarts "
-            "and reorganisations across election boundaries).  REFUTED on the model and reproduced on the real code every run "
-            "(known findings): the global agreement clause (F14 Confirms never validated, F14b equivocation + partition, F14c "
-            "sparse proposal map), equality of the restored proposal map with the online one, and 'producer set is a function "
-            "of the main chain' when BPCOUNT changes (F23: ranking cut at the in-memory BPCOUNT), and 'LIB on the main chain' after a "
-            "reorganisation that fails at block k (F25/F39: the LIB bookkeeping of the failed branch survives the two Update(best) "
-            "calls of the error paths; proved intact when only children of the best block fail; the confirms list however is "
-            "proved to be rebuilt from the main chain after every abandoned reorganisation, because Update tells a connected "
-            "block from a rollback target by the hash linkage).",
-    "note": "Trusted: Coq kernel/vm_compute; 60-bit observation hash; the dpos engine's mirror of ChainService.addBlock/reorg around "
-            "Status (its call order, incl. the execution-failure and IsBlockValid-refusal sequences after F41/F42, is compared with the real ChainService by a "
-            "second engine that also reads the saved status back from the chain DB; block execution and orphan handling are "
-            "C05/C07's); the emulated recovery sequence after a crash inside a reorg; the election engine's emulation of the in-memory BPCOUNT life cycle (InitSystemParams at "
-            "start-up/end of reorg, CommitParams after AddSnapshot), no transaction is executed; generator; gob round-trip "
-            "through the real Save/bootLoader.  agreement_under_lock is proved for an abstract rule and does not transfer to the "
-            "implementation (reasons in Dpos/AgreementLock.v).",
+    "text": "53 Coq theorems (no axioms) over a literal model of dpos libStatus/Status, the chain service's add-block/reorg call sequence (blocks failing at execution or refused by IsBlockValid; crash inside a reorg + marker recovery) and the BP election, for all producer counts and delivery histories with restarts anywhere. FULL: LIB never decreases; a block <= LIB or a reorg forking below it changes nothing; main-chain blocks <= a reported LIB stay forever; LIB, proposals, confirms list on the main chain (confirms list also after any abandoned reorg: Update uses the hash linkage); a proposal needs 2n/3+1 confirming main-chain blocks; two quorums share a correct producer (f < n/3); restart restores the LIB exactly; status saved with the tip = running one; recovery redoes the reorg; ForceResetHeight; confirmsRequired follows the producer count. PARTIAL: LIB on main chain with failing blocks if no reorg is abandoned midway; producer set a function of the chain if BPCOUNT is constant; agreement if j's chain holds i's LIB block. REFUTED, known, reproduced every run: agreement (F14/b/c, C08:agreement-confirms-unvalidated, C08:agreement-equivocation-partition); restored proposals = online (F45, C08:restart-status-differs-from-online); producer set after a BPCOUNT change (F34, C08:bp-snapshot-bpcount-from-memory); LIB on main chain after an abandoned reorg (F39, C08:lib-off-main-chain-after-failed-reorg). Tie every run: engines on the real dpos.Status, NewStatus+bp.Snapshots+GetRankers and ChainService (recording, persisting stub); every step's outcome, LIB, proposals, confirms list, main chain, producer set, call sequence, saved status hashed and compared with the model by vm_compute; each clause also a direct predicate on the implementation; multi-node disagreement search.",
+    "note": "Trusted: Coq kernel + vm_compute (no axioms); 60-bit shift-add observation hash; scenario generators; the dpos engine's mirror of ChainService.addBlock/reorg around Status (its call order, incl. the execution-failure and IsBlockValid-refusal sequences, is compared with the real ChainService by the chain engine on every run; block execution and orphans are C05/C07's). Emulated from the source, not executed: the marker recovery sequence after a crash inside a reorg; the life cycle of the in-memory BPCOUNT (InitSystemParams at start, after reorg.rollback and at the end of a reorg; CommitParams after AddSnapshot) - no transaction is executed. Modelled only, no engine: blockfactory's Confirms = no - LpbNo (Protocol.v). gob round trip goes through the real Save/bootLoader. Theorem assumptions: block ids >= 0, delivered blocks are not the genesis block, 0 < n < 21845 for the confirmation counting, f < n/3 for quorum intersection. agreement_under_lock is proved for an abstract rule and does not transfer to the implementation (Dpos/AgreementLock.v, AgreementObstacles.v).",
     "technique": "Coq invariant proofs over executable Gallina models + vm_compute correspondence against the real dpos.Status, "
                  "bp.Snapshots/Cluster, system.GetRankers and chain.ChainService + multi-node disagreement search",
 }
@@ -596,12 +570,17 @@ def run(ctx):
     ctx.cov["trusted_base"] = [
         "Coq 8.16.1 kernel + vm_compute", "Go toolchain + overlay build of package dpos",
         "engine's mirror of ChainService.addBlock/reorg call order around Status (harness/engines/dposlib)",
-        "in-memory consensus.ChainDB of the engine", "scenario generator lib/c08gen.py", "libp2p secp256k1 (block ids / producer ids)"]
+        "in-memory consensus.ChainDB of the engine", "emulated marker-recovery sequence and in-memory BPCOUNT life cycle",
+        "60-bit observation hash", "scenario generator lib/c08gen.py", "libp2p secp256k1 (block ids / producer ids)"]
     ctx.assumptions = [
         "block hashes are injective identifiers; a block's number is its parent's number + 1 (validated by chain before Update)",
-        "producer set static (all heights below the bootstrap height 300), ForceResetHeight = 0",
+        "node histories of the dpos engine keep the producer set static (heights below the bootstrap height 300); producer-set "
+        "changes are driven by the election engine (chains of 405-440 blocks) with no transaction executed: the in-memory BPCOUNT "
+        "life cycle is emulated from the source",
         "block numbers < 2^63, producer count < 21845 (no uint16 overflow in confirmsRequired*3)",
-        "the chain service calls Status in the order read from chain/chainhandle.go and chain/reorg.go at the pinned commit"]
+        "the dpos engine calls Status in ChainService's order; that order (incl. failure and refusal sequences) is compared with the "
+        "real ChainService by the chain engine on every run; the recovery sequence after a crash inside a reorg is read from "
+        "chain/recover.go and chain/reorg.go, not driven through the real ChainService"]
     rc, log, binpath = ctx.go_test_binary(
         "consensus/impl/dpos", [os.path.join(vf.HARNESS, "engines/dposlib/zz_verif_c08_engine_test.go"),
                                 os.path.join(vf.HARNESS, "engines/dposlib/zz_verif_c08_election_engine_test.go")], "dpos_c08.test")
@@ -777,8 +756,9 @@ def run(ctx):
     ctx.cov["traces_validated_against_impl"] = len(cases)
     ctx.cov["distinct_nontrivial"] = len(shapes)
     ctx.cov["chain_service_tie"] = ("real ChainService.addBlock/reorg with a recording consensus stub (scripted LIB): the sequence of "
-                                    "VerifyTimestamp/NeedReorganization/Update/Save calls, best block and main chain equal the model's "
-                                    "deliver on %d deliveries" % sum(len(o) for o in cobs))
+                                    "VerifyTimestamp/VerifySign/NeedReorganization/IsBlockValid/Update/Save calls (incl. blocks that fail "
+                                    "at execution or are refused by IsBlockValid), best block, main chain equal the model's deliver / "
+                                    "deliver_f and the status read back from the chain DB is the one of the new tip on %d deliveries" % sum(len(o) for o in cobs))
     ctx.cov["rule"] = ("one evaluation = one delivery/restart step on a real Status compared with the model (LIB, Prpsd, confirms list "
                        "with confirmsLeft, LpbNo, confirmsRequired, best, main chain, outcome); distinct = distinct (producer count, "
                        "op, outcome, |Prpsd|, |confirms|, LIB height capped at 40) tuples")
@@ -787,8 +767,8 @@ def run(ctx):
     dist["corpus"] = len(corpus)
     dist["node_histories"] = len(cases)
     dist["producer_counts"] = sorted({s["n"] for s in scen})
-    dist["exhaustive_families"] = ("all producer schedules: n=2 len 5" if quick else
-                                   "all producer schedules: n=2 len 9, n=3 len 7, n=4 len 5")
+    dist["exhaustive_families"] = ("all producer schedules: n=1 len 4, n=2 len 5" if quick else
+                                   "all producer schedules: n=1 len 6, n=2 len 9, n=3 len 7, n=4 len 5")
     dist["multi_node_scenarios"] = sum(1 for s in scen if s.get("nodes", 1) > 1)
     dist["disagreements_found"] = len(disagreements)
     ctx.cov["input_distribution"] = dist
